@@ -280,4 +280,133 @@ theorem C18_full_of_good (c : Cfg) (hc : c.good = true) : C18_full c := by
     obtain ⟨i, hi⟩ := List.getElem?_of_mem ht
     exact (hall i t hi).doneFree hd
 
+/-! ### What holds whatever the configuration -/
+
+theorem stepT_len (c : Cfg) (sh : Shared) (t : Thread) (ev : Ev) :
+    (stepT c sh t ev).2.1.res.length + sh.produced.length = t.res.length + (stepT c sh t ev).1.produced.length := by
+  obtain ⟨kind, pc, st, rem, first, loc, res, msgs, susp, holds, base⟩ := t
+  cases ev
+  · cases pc <;> cases kind <;>
+      simp [stepT, stepGo, readLock, testAndSet, setLock, refuse, acquired, afterStep] <;> grind
+  · simp only [stepT, stepFail]; grind
+  · simp only [stepT, stepGone]; grind
+
+/-- Whatever the locking discipline: every step result contained in some response was logged exactly once
+for that response (the responses together are as long as the log of produced times). -/
+theorem C18_partial (c : Cfg) (stop : Nat) (ks : List Kind) (sched : Schedule) :
+    sumLen (run c (State.init stop ks) sched).ths = (run c (State.init stop ks) sched).sh.produced.length := by
+  have one : ∀ (s : State) (a : Nat × Ev), sumLen s.ths = s.sh.produced.length →
+      sumLen (step c s a).1.ths = (step c s a).1.sh.produced.length := by
+    intro s a h
+    unfold step
+    cases hget : s.ths[a.1]? with
+    | none => exact h
+    | some t =>
+      have h1 := stepT_len c s.sh t a.2
+      have h2 := sumLen_set s.ths a.1 t (stepT c s.sh t a.2).2.1 hget
+      show sumLen (s.ths.set a.1 (stepT c s.sh t a.2).2.1) = (stepT c s.sh t a.2).1.produced.length
+      omega
+  have gen : ∀ (sched : Schedule) (s : State), sumLen s.ths = s.sh.produced.length →
+      sumLen (run c s sched).ths = (run c s sched).sh.produced.length := by
+    intro sched
+    induction sched with
+    | nil => intro s h; exact h
+    | cons a rest ih => intro s h; exact ih _ (one s a h)
+  apply gen
+  have := (inv_init stop ks).sum
+  simpa [State.init] using this
+
+/-! ### Negation witnesses (one per mechanism fact) -/
+
+theorem not_full_of_two_holders (c : Cfg) (stop : Nat) (ks : List Kind) (sched : Schedule) (i j : Nat) (hij : i ≠ j)
+    (hi : (run c (State.init stop ks) sched).ths[i]?.map (·.holds) = some true)
+    (hj : (run c (State.init stop ks) sched).ths[j]?.map (·.holds) = some true) : ¬ C18_full c := by
+  intro hf
+  obtain ⟨ti, h1, h2⟩ := Option.map_eq_some_iff.mp hi
+  obtain ⟨tj, h3, h4⟩ := Option.map_eq_some_iff.mp hj
+  exact hij ((hf stop ks sched).1 i j ti tj h1 h3 h2 h4)
+
+theorem not_full_of_active_while_held (c : Cfg) (stop : Nat) (ks : List Kind) (sched : Schedule) (i j : Nat) (hij : i ≠ j)
+    (hi : (run c (State.init stop ks) sched).ths[i]?.map (·.holds) = some true)
+    (hj : (run c (State.init stop ks) sched).ths[j]?.map (·.pc.active) = some true) : ¬ C18_full c := by
+  intro hf
+  obtain ⟨ti, h1, h2⟩ := Option.map_eq_some_iff.mp hi
+  obtain ⟨tj, h3, h4⟩ := Option.map_eq_some_iff.mp hj
+  have := (hf stop ks sched).2.1 i j ti tj h1 h3 hij h2
+  simp [h4] at this
+
+theorem not_full_of_done_holding (c : Cfg) (stop : Nat) (ks : List Kind) (sched : Schedule) (i : Nat)
+    (hi : (run c (State.init stop ks) sched).ths[i]?.map (fun t => decide (t.pc = .done) && t.holds) = some true) :
+    ¬ C18_full c := by
+  intro hf
+  obtain ⟨ti, h1, h2⟩ := Option.map_eq_some_iff.mp hi
+  simp only [Bool.and_eq_true, decide_eq_true_eq] at h2
+  have := (hf stop ks sched).2.2.2.2.2.2.2 ti (List.mem_of_getElem? h1) h2.1
+  simp [h2.2] at this
+
+/-- check-then-act acquisition (`is_locked()` … `lock()`): two concurrent `run-steps` both pass the test
+before either sets the lock; both are inside the critical section. -/
+theorem C18_witness_toctou (c : Cfg) (h : c.lockIsTestAndSet = false) : ¬ C18_full c := by
+  obtain ⟨a, b, d, e, f⟩ := c
+  simp only at h; subst h
+  apply not_full_of_two_holders _ 5 [.runSteps 1, .runSteps 1] [(0, .go), (1, .go), (0, .go), (1, .go)] 0 1 (by decide) <;>
+    cases b <;> cases d <;> cases e <;> cases f <;> decide
+
+/-- `run-step` only tests the lock: it passes the test, then a `run-steps` acquires, and the single step
+runs inside the other request's critical section. -/
+theorem C18_witness_run_step_unlocked (c : Cfg) (h : c.runStepTakesLock = false) : ¬ C18_full c := by
+  obtain ⟨a, b, d, e, f⟩ := c
+  simp only at h; subst h
+  apply not_full_of_active_while_held _ 5 [.runSteps 1, .runStep] [(1, .go), (0, .go), (0, .go)] 0 1 (by decide) <;>
+    cases a <;> cases d <;> cases e <;> cases f <;> decide
+
+/-- a stream that runs to completion never unlocks (sequential: one request, no concurrency). -/
+theorem C18_witness_stream_completion (c : Cfg) (h : c.streamUnlocksOnDone = false) : ¬ C18_full c := by
+  obtain ⟨a, b, d, e, f⟩ := c
+  simp only at h; subst h
+  apply not_full_of_done_holding _ 1 [.stream] (List.replicate 18 (0, .go)) 0
+  cases a <;> cases b <;> cases e <;> cases f <;> decide
+
+/-- a raising `run_step` leaves the lock set. -/
+theorem C18_witness_error (c : Cfg) (h : c.unlockOnError = false) : ¬ C18_full c := by
+  obtain ⟨a, b, d, e, f⟩ := c
+  simp only at h; subst h
+  apply not_full_of_done_holding _ 5 [.runSteps 1] [(0, .go), (0, .go), (0, .go), (0, .fail)] 0
+  cases a <;> cases b <;> cases d <;> cases f <;> decide
+
+/-- closing a suspended stream leaves the lock set. -/
+theorem C18_witness_client_gone (c : Cfg) (h : c.unlockOnClientGone = false) : ¬ C18_full c := by
+  obtain ⟨a, b, d, e, f⟩ := c
+  simp only at h; subst h
+  apply not_full_of_done_holding _ 5 [.stream]
+    (if a then [(0, .go), (0, .gone)] else [(0, .go), (0, .go), (0, .go), (0, .gone)]) 0
+  cases a <;> cases b <;> cases d <;> cases e <;> decide
+
+/-! ### Non-vacuity: concrete runs of the good configuration -/
+
+def goodCfg : Cfg := ⟨true, true, true, true, true⟩
+
+/-- a `run-steps 2`, a stream and a `run-step` interleaved: the stream is refused while the `run-steps`
+holds the lock, the `run-step` runs afterwards; times 0,1 and 2 are produced once each. -/
+example :
+    let s := run goodCfg (State.init 3 [.runSteps 2, .stream, .runStep])
+      [(0, .go), (0, .go), (0, .go), (1, .go), (0, .go), (0, .go), (0, .go), (0, .go), (0, .go), (0, .go),
+       (2, .go), (2, .go), (2, .go), (2, .go), (2, .go)]
+    s.ths.map (fun t => (t.st, t.res)) = [(.ok, [0, 1]), (.refused, []), (.ok, [2])] ∧
+      s.sh.clock = 3 ∧ s.sh.lock = false ∧ s.sh.produced = [0, 1, 2] := by decide
+
+/-- a stream over stop time 1 whose client goes away after the first step's chunk: lock released. -/
+example :
+    let s := run goodCfg (State.init 1 [.stream])
+      [(0, .go), (0, .go), (0, .go), (0, .go), (0, .go), (0, .go), (0, .go), (0, .gone)]
+    s.ths.map (fun t => (t.st, t.res, t.holds)) = [(.gone, [0], false)] ∧ s.sh.lock = false := by decide
+
+#print axioms C18_full_of_good
+#print axioms C18_partial
+#print axioms C18_witness_toctou
+#print axioms C18_witness_run_step_unlocked
+#print axioms C18_witness_stream_completion
+#print axioms C18_witness_error
+#print axioms C18_witness_client_gone
+
 end Bptk.C18
